@@ -49,6 +49,7 @@ type replication struct {
 	leaderUpdateCh chan leaderUpdate
 	replUpdateCh   chan<- replUpdate
 	stopCh         chan struct{}
+	stopped        bool // stopCh is closed; owned by ldr goroutine
 }
 
 func (r *replication) runLoop(req *appendReq) {
